@@ -126,14 +126,17 @@ def representatives(T, limit=10):
                 if out and (T.get('patterns') or T['kind'] == 'date'):
                     break          # representatives from the fixed candidates: no (slow, timeout-prone) pattern solving
                 s = z3.Solver()
-                s.set('timeout', 4000)
+                s.set('timeout', 60000)
                 s.add(L.str_ok(v, False), z3.InRe(v, z3.Intersect(lex.normalised_re(L.ws), plain)))
                 if ln is not None:
                     s.add(z3.Length(v) == ln)
                 else:
                     s.add(z3.Length(v) >= 7, z3.Length(v) <= 12)
                 if str(s.check()) == 'sat':
-                    add(lex.canonical_str(s, v))
+                    try:
+                        add(lex.canonical_str(s, v))
+                    except lex.NoModel:
+                        pass
             add(lib.sample_for(T))
     _REP[key] = out[:limit]
     return _REP[key]
